@@ -323,5 +323,46 @@ func runC04(o *Out, rng *Rng, tier string, replay string) {
 		}
 		o.Count("large_population_scenarios")
 	}
+	// the RESULT of the update must not depend on the order in which the workers report either: with a
+	// store call of one worker failing (and the healthy workers made to report after it) the update returns an
+	// error under every thread setting
+	fr := rng.Fork()
+	for wi, threads := range []int{2, 4, 8, 16} {
+		c04FaultArrival(o, fr.Fork(), filepath.Join(wd, "arr"), wi, threads)
+	}
 	engFlush(o, "C04")
+}
+
+func c04FaultArrival(o *Out, r *Rng, wd string, wi int, threads int) {
+	os.MkdirAll(wd, 0o755)
+	w := buildWorld(r, filepath.Join(wd, fmt.Sprintf("m%04d", wi)), threads)
+	defer os.RemoveAll(w.dir)
+	scratch := filepath.Join(wd, fmt.Sprintf("ms%04d", wi))
+	defer os.RemoveAll(scratch)
+	base, traces, _ := runUpdateMT(w, scratch, -1, 0)
+	if base.err != nil {
+		return
+	}
+	for wn, tr := range traces {
+		done := 0
+		for i, k := range tr {
+			if k != "batchput" && k != "flush" && k != "newiter" {
+				continue
+			}
+			if done >= 2 {
+				break
+			}
+			res, _, fired := runUpdateMT(w, scratch, wn, i)
+			if !fired {
+				continue
+			}
+			done++
+			o.Count("updates_with_one_failing_worker")
+			if res.err == nil && !res.pan {
+				o.Fail(MonitorFailure{Property: "C04", Signature: "update-result-depends-on-worker-arrival-order",
+					What: fmt.Sprintf("daily update with %d threads: call %d (%s) of worker %d failed and the healthy workers reported after it: the update returned success (with the failing worker reporting last it returns the error)", threads, i, k, wn),
+					Replay: map[string]interface{}{"world": wi, "op": "update", "threads": threads, "worker": wn, "call": i, "kind": k}})
+			}
+		}
+	}
 }
